@@ -427,6 +427,72 @@ theorem prm_unlocked_state_read_stale {S : Type} (v : S) :
 example : (exec RStep.apply (prmThreads true [((7 : Nat), true), (8, false)] 2) RStore.init [1, 0, 1, 0]).log =
     [((0, []), (0, [])), ((1, [7]), (1, [7]))] := by decide
 
+/-! ## CForest's solution monitor (`CForest::newSolutionFound` under `newSolutionFoundMutex_`) -/
+
+/-- **The best cost is monotone under every schedule of reports**: with the whole report one guarded step, after any
+scheduler (complete or not) of any number of instances reporting any costs, the successive values of `bestCost_` are
+strictly decreasing, `bestCost_` is the last of them and at most every cost reported so far, and `numPathsShared_` counts
+exactly those strict improvements (`l` = the costs in the order the reports took the mutex). -/
+theorem cforest_best_cost_monotone (css : List (List Nat)) (is : List Nat) :
+    ∃ l : List Nat, trace (reportThreads true css) is = l.map MStep.report ∧
+      MInv l (exec MStep.apply (reportThreads true css) MStore.init is) := by
+  rw [reportThreads_monitor]
+  have hsteps : ∀ a ∈ trace (css.map (fun cs => cs.map MStep.report)) is, ∃ c, a = MStep.report c := by
+    intro a ha
+    obtain ⟨t, ht, hat⟩ := mem_trace _ _ a ha
+    obtain ⟨cs, _, rfl⟩ := List.mem_map.mp ht
+    obtain ⟨c, _, rfl⟩ := List.mem_map.mp hat
+    exact ⟨c, rfl⟩
+  obtain ⟨l, hl⟩ := exists_map_report _ hsteps
+  refine ⟨l, hl, ?_⟩
+  simp only [exec]
+  rw [hl]
+  simpa using minv_run l [] MStore.init minv_init
+
+/-- when all reports are in: `bestCost_` is the minimum of the reported costs (one of them, and at most each) -/
+theorem cforest_best_is_min (css : List (List Nat)) (is : List Nat) (hc : Complete (reportThreads true css) is) :
+    let s := exec MStep.apply (reportThreads true css) MStore.init is
+    (∀ c ∈ css.flatten, ∃ b, s.best = some b ∧ b ≤ c) ∧ (∀ b, s.best = some b → b ∈ css.flatten) := by
+  obtain ⟨l, hl, inv⟩ := cforest_best_cost_monotone css is
+  have hp : l.Perm css.flatten := by
+    have := trace_perm_of_complete hc
+    rw [hl, reportThreads_monitor, flatten_map_map] at this
+    have h2 := this.filterMap (fun a => match a with | MStep.report c => some c | _ => none)
+    have key : ∀ m : List Nat, (m.map MStep.report).filterMap (fun a => match a with | MStep.report c => some c | _ => none) = m := by
+      intro m
+      induction m with
+      | nil => rfl
+      | cons x m ih => simp [ih]
+    rwa [key, key] at h2
+  refine ⟨fun c hcm => inv.seen_ge c ((hp.mem_iff).mpr hcm), fun b hb => ?_⟩
+  have : b ∈ (exec MStep.apply (reportThreads true css) MStore.init is).hist := by
+    have hlast := inv.best_last
+    rw [hb] at hlast
+    exact List.mem_of_getLast? hlast.symm
+  exact (hp.mem_iff).mp (inv.hist_seen b this)
+
+example : (exec MStep.apply (reportThreads true [[10, 7], [8]]) MStore.init [0, 1, 0]).hist = [10, 8, 7] := by decide
+
+/-- **Check-then-act outside the lock is not linearizable** (the shape "compare without the mutex, update under it without
+comparing again"): instance A reports 10, B reports 8; schedule cmp A · cmp B · act B · act A — both comparisons see the
+infinite initial cost, B stores 8, A stores 10 on top: `bestCost_` goes UP and ends at 10, whereas under the monitor every
+schedule of the same two reports ends at 8. -/
+theorem cforest_check_then_act_not_linearizable :
+    ∃ is, Complete (reportThreads false [[10], [8]]) is ∧
+      (exec MStep.apply (reportThreads false [[10], [8]]) MStore.init is).best = some 10 ∧
+      (exec MStep.apply (reportThreads false [[10], [8]]) MStore.init is).hist = [8, 10] ∧
+      ∀ js, Complete (reportThreads true [[10], [8]]) js →
+        (exec MStep.apply (reportThreads true [[10], [8]]) MStore.init js).best = some 8 := by
+  refine ⟨[0, 1, 1, 0], by decide, by decide, by decide, ?_⟩
+  intro js hjs
+  obtain ⟨hmin, hmem⟩ := cforest_best_is_min [[10], [8]] js hjs
+  obtain ⟨b, hb, hle⟩ := hmin 8 (by simp)
+  have := hmem b hb
+  simp at this
+  rcases this with rfl | rfl
+  · omega
+  · exact hb
+
 /-! ## pRRT's worker loop at lock granularity -/
 
 /-- **Every interleaving of worker steps preserves "every tree edge was answered valid"** (with the
